@@ -111,6 +111,40 @@ def idm_spec(prop, tier):
 
 IDM_PROPS = {"C05", "C14", "C15"}
 
+
+def ep(cap, families, bound, budget=60.0, job_budget=30.0, extra=(), label=None):
+    d = dict(h={"kind": "epoch", "cap": cap}, families=list(families), bound=bound, budget=budget, job_budget=job_budget, extra=list(extra))
+    if label:
+        d["label"] = label
+    return d
+
+
+def epoch_spec(prop, tier):
+    q = tier == "quick"
+    if prop == "C04":
+        if q:
+            return [ep(1, ("reuse", "pin1"), 2), ep(2, ("pin1", "pin2", "reuse"), 2)]
+        return [ep(1, ("reuse", "pin1"), 4, 300, 120), ep(2, ("pin1", "pin2", "reuse", "public"), 3, 300, 120),
+                ep(3, ("pin2", "public"), 3, 300, 120)]
+    if prop == "C16":
+        if q:
+            return [ep(2, ("obs", "pin1"), 2), ep(2, (), 0, 60, 30, ("--histories", "5"), "sequential histories depth 5")]
+        return [ep(2, ("obs", "pin1", "pin2", "list1"), 3, 300, 120), ep(1, ("obs",), 4, 300, 120),
+                ep(2, (), 0, 300, 60, ("--histories", "7"), "sequential histories depth 7")]
+    if prop == "C17":
+        if q:
+            return [ep(1, ("list1",), 2), ep(2, ("list1", "list2"), 2)]
+        return [ep(1, ("list1",), 4, 300, 120), ep(2, ("list1", "list2", "public"), 3, 300, 120)]
+    if prop == "C20":
+        if q:
+            return [ep(2, (), 0, 80, 30, ("--histories", "6"), "sequential histories depth 6"), ep(2, ("list1",), 1)]
+        return [ep(2, (), 0, 500, 60, ("--histories", "8"), "sequential histories depth 8"), ep(1, (), 0, 200, 60, ("--histories", "9"), "sequential histories depth 9 (1 worker)"),
+                ep(2, ("list1", "list2"), 2, 200, 60)]
+    return None
+
+
+EPOCH_PROPS = {"C04", "C16", "C17", "C20"}
+
 LOCK_PROPS = {"C01", "C02", "C03", "C07", "C08", "C09", "C10", "C11", "C12", "C13"}
 
 LEVEL_NOTE = ("bounded exhaustive schedule exploration of the compiled library under a serialising scheduler "
@@ -123,6 +157,8 @@ def run_check(prop, tier):
         return e1.check_property(prop, tier, runs, LEVEL_NOTE, TRUST)
     if prop in IDM_PROPS:
         return e1.check_property(prop, tier, idm_spec(prop, tier), LEVEL_NOTE, TRUST)
+    if prop in EPOCH_PROPS:
+        return e1.check_property(prop, tier, epoch_spec(prop, tier), LEVEL_NOTE, TRUST)
     print("no check registered for %s" % prop)
     return 2
 
@@ -134,6 +170,8 @@ def setup():
             e1.harness_binary(L(lk, retry))
     for cap in (1, 2, 3, 4):
         e1.harness_binary({"kind": "idm", "cap": cap})
+    for cap in (1, 2, 3):
+        e1.harness_binary({"kind": "epoch", "cap": cap})
     print("setup ok (%.1fs)" % (time.time() - t0))
     return 0
 
